@@ -114,6 +114,14 @@ def twofile_program(rnd):
             "sets": {"A": [4], "B": [1002], "None": []}}
 
 
+def pushcall_program(rnd):
+    """stepOut requested between pha and pla, and the subroutine calls another one afterwards (B = the line between them)."""
+    p = [I("lda", 5), I("jsr", "s"), I("nop"), I("brk"), I("pha", 0, "s"), I("iny"), I("pla"), I("jsr", "inner"), I("iny"), I("rts"),
+         I("inx", 0, "inner"), I("rts")]
+    pg = plain("pushcall", p, "nop", "iny")
+    return pg
+
+
 def probe_program(rnd):
     """Long enough (in instructions) that a perturbed machine is still inside the loop 60-120 ms after configurationDone
     (the machine thread first sleeps up to 50 ms in its Launching branch): breakpoints installed DURING the free run."""
@@ -177,6 +185,8 @@ def instantiate(case, pg, rnd, slow, late=False):
         elif a == "pause":
             # full speed: the machine thread wakes <= 50 ms after start and runs ~1 ms
             steps.append({"a": a, "delay": rnd.choice([0, 0, 0.0005, 0.002, 0.005, 0.012, 0.025]) if slow else rnd.choice([0.0498, 0.0501, 0.0504, 0.0507, 0.051, 0.0513]), "gap": gap})
+        elif a == "runstep":
+            steps.append({"a": a, "delay": rnd.choice([0.06, 0.07, 0.085, 0.1, 0.12]), "gap": gap})
         else:
             steps.append({"a": a, "delay": rnd.choice([0, 0, 0, 0.001]), "gap": gap})
     return sets[case["bps0"]], steps
@@ -259,7 +269,7 @@ def design_level(rep, tier, devs):
         raise V.ToolError("MC_Debugger_dup failed:\n%s" % V.tail(r.out, 40))
     rep.notes.append("MC_Debugger_dup (one source line = two instructions, breakpoints by line): %d distinct states; all properties hold" % r.distinct)
     # counterexamples that must exist: the recorded findings as violations of the ideal reading, and vacuity witnesses
-    for name in ("push_ideal", "next_ideal", "next_ideal2", "stepend_ideal", "files_ideal"):
+    for name in ("push_ideal", "next_ideal", "next_ideal2", "stepend_ideal", "files_ideal", "pushcall_ideal", "steprun_ideal"):
         r = V.tlc(mc, cfg=os.path.join(SPEC, "MC_Debugger_%s.cfg" % name), workers=3, timeout=600, tag="C19-mc-" + name)
         rep.add_tlc(r)
         if r.invariant_violated or r.rc != 0:
@@ -268,6 +278,8 @@ def design_level(rep, tier, devs):
     for name, what in (("race", "PauseRace: StoppedIsHalted fails on the implementation-shaped reading"),
                        ("race_insp", "PauseRace seen by the client: stackTrace/variables disagree"),
                        ("push", "StepOutReadsTopOfStack: StepExact fails when the subroutine pushed data"),
+                       ("cex_stepout_sp", "hypothetical StepOutComparesStackDepth: stepOut between push and pull stops behind a nested call's rts"),
+                       ("cex_steprun", "StepRacesMachineThread: a step sent while running lets the machine thread execute an unchecked instruction"),
                        ("cex_stepend", "StepSwallowsTestEnd: a step on brk does not end the test"),
                        ("cex_stepfail", "StepSwallowsTestEnd: a step on a failing assertion does not end the test"),
                        ("cex_files", "SetBreakpointsForgetsOtherFiles: a free run passes the other file's breakpoint"),
@@ -332,6 +344,13 @@ def main(tier):
             i += 1
             add(i, case, mk(rnd), "slow", True)
     fam = lambda name: sorted([c for c in allscripts if c["family"] == name], key=lambda c: json.dumps(c["script"]))
+    for case in fam("stepoutpush"):
+        i += 1
+        add(i, case, pushcall_program(rnd), "slow", True)
+    for case in fam("steprun"):
+        for _ in range(3):
+            i += 1
+            add(i, case, probe_program(rnd), "probe", True, late=True)
     for case in fam("stepend"):
         for pg in end_programs(rnd):
             i += 1
